@@ -1309,44 +1309,61 @@ DIM_CASES = [
     dict(kind='dim-mismatch', call='Circuit.instantiate', radixes=[2], gate=['lib', 'U3Gate'], target='state', tdim=4),
     dict(kind='dim-mismatch', call='calc_cost', radixes=[3], gate=['py', 'PyPhase3'], target='unitary', tdim=2),
 ]
-DIM_CODE = r'''
-import json, sys, warnings
-warnings.simplefilter('ignore')
-sys.path.insert(0, %(harness)r)
-import numpy as np
-from bqskit.ir.circuit import Circuit
-from props import c19
-case = json.loads(%(case)r)
-c = Circuit(len(case['radixes']), case['radixes'])
-c.append_gate(c19.mk_gate(case['gate']), list(range(len(case['radixes']))))
-t = np.eye(case['tdim']) if case['target'] == 'unitary' else np.eye(case['tdim'])[0]
-try:
-    if case['call'] == 'calc_cost':
-        from bqskit.ir.opt.cost.functions import HilbertSchmidtCostGenerator
-        from bqskit.qis.unitary.unitarymatrix import UnitaryMatrix
-        HilbertSchmidtCostGenerator().calc_cost(c, UnitaryMatrix(t))
-    else:
-        c.instantiate(t)
-    print('RESULT completed')
-except BaseException as e:
-    print('RESULT raised', type(e).__name__)
-'''
+def _dim_body(case):
+    import numpy as np
+    from bqskit.ir.circuit import Circuit
+    c = Circuit(len(case['radixes']), case['radixes'])
+    c.append_gate(mk_gate(case['gate']), list(range(len(case['radixes']))))
+    t = np.eye(case['tdim']) if case['target'] == 'unitary' else np.eye(case['tdim'])[0]
+    try:
+        if case['call'] == 'calc_cost':
+            from bqskit.ir.opt.cost.functions import HilbertSchmidtCostGenerator
+            from bqskit.qis.unitary.unitarymatrix import UnitaryMatrix
+            HilbertSchmidtCostGenerator().calc_cost(c, UnitaryMatrix(t))
+        else:
+            c.instantiate(t)
+        return 'RESULT completed'
+    except BaseException as e:
+        return 'RESULT raised ' + type(e).__name__
 
 
 def run_dim_case(case):
+    """runs in a forked child: the defect kills the process (SIGABRT from the native engine)"""
     out = dict(counts=['directed:dim-mismatch'], problems=[], nontrivial=True)
-    code = DIM_CODE % dict(harness=str(vf.ROOT / 'harness'), case=json.dumps(case))
-    p = subprocess.run([vf.PY, '-c', code], capture_output=True, text=True, timeout=600, env=vf.env_for_impl())
-    res = [ln for ln in p.stdout.splitlines() if ln.startswith('RESULT')]
-    obs = res[-1] if res else 'process died: rc=%d %s' % (p.returncode, (p.stderr.strip().splitlines() or [''])[0][:160])
-    if not res:
+    warnings.simplefilter('ignore')
+    py_gates()
+    r, w = os.pipe()
+    pid = os.fork()
+    if pid == 0:
+        try:
+            os.close(r)
+            try:
+                import resource
+                resource.setrlimit(resource.RLIMIT_CORE, (0, 0))
+            except Exception:
+                pass
+            os.write(w, _dim_body(case).encode())
+        finally:
+            os._exit(0)
+    os.close(w)
+    data = b''
+    while True:
+        chunk = os.read(r, 4096)
+        if not chunk:
+            break
+        data += chunk
+    os.close(r)
+    _, status = os.waitpid(pid, 0)
+    res = data.decode()
+    obs = res if res.startswith('RESULT') else 'process died: %s' % ('signal %d' % os.WTERMSIG(status) if os.WIFSIGNALED(status) else 'status %d' % status)
+    if not res.startswith('RESULT'):
         out['problems'].append((dict(call=case['call'], symptom='process-abort', input='target-dimension-mismatch'),
                                 'ValueError (documented: "If `target` dimension doesn\'t match with circuit")', obs,
                                 'a target of the wrong dimension kills the interpreter (native abort) instead of raising'))
-    elif res[-1] == 'RESULT raised PanicException':
+    elif res == 'RESULT raised PanicException':
         out['problems'].append((dict(call=case['call'], symptom='native-panic', input='target-dimension-mismatch'),
                                 'ValueError', obs, 'a target of the wrong dimension makes the native engine panic (PanicException is a BaseException) instead of raising ValueError'))
-    elif res[-1] not in ('RESULT raised ValueError', 'RESULT raised TypeError'):
+    elif res not in ('RESULT raised ValueError', 'RESULT raised TypeError'):
         out['problems'].append((dict(call=case['call'], symptom='dimension-mismatch-accepted', input='target-dimension-mismatch'),
                                 'ValueError', obs, 'a target of the wrong dimension is not rejected'))
     return out
@@ -1416,6 +1433,7 @@ _W = None
 
 def _world():
     global _W
+    os.environ['RUST_BACKTRACE'] = '0'        # the engine's panics are expected outcomes here; symbolising backtraces costs seconds each
     if _W is None:
         _W = World()
     return _W
@@ -1653,15 +1671,15 @@ def run(ctx: vf.Ctx):
     for g in QF_GENERAL:
         tasks.append(('qf-panic', dict(kind='qf-panic', gate=g)))
     tasks += [('cost', c) for c in sweep_cases()]
-    n = ctx.n(320, 20000)
+    n = ctx.n(240, 20000)
     scripts = [gen_script_case(rng, malformed=(rng.random() < 0.15)) for _ in range(n)]
-    mins = [gen_min_case(rng) for _ in range(ctx.n(100, 6000))]
+    mins = [gen_min_case(rng) for _ in range(ctx.n(60, 6000))]
     for i in range(0, len(scripts), 40):
         tasks.append(('script', scripts[i:i + 40]))
     for i in range(0, len(mins), 50):
         tasks.append(('min', mins[i:i + 50]))
-    tasks += [('inst', gen_inst_case(rng, i)) for i in range(ctx.n(160, 12000))]
-    tasks += [('cost', gen_cost_case(rng, i, deep=not ctx.quick())) for i in range(ctx.n(300, 30000))]
+    tasks += [('inst', gen_inst_case(rng, i)) for i in range(ctx.n(120, 12000))]
+    tasks += [('cost', gen_cost_case(rng, i, deep=not ctx.quick())) for i in range(ctx.n(220, 30000))]
     t1 = time.time()
     consume(ctx, run_tasks(ctx, tasks))
     ctx.cov['timing_s'] = dict(build_and_import=round(t1 - ctx.t0, 1), cases=round(time.time() - t1, 1))
